@@ -61,11 +61,13 @@ def acceptable_outcomes(trace, interests, packets, legacy=False, deadline_valida
                 cands[i].append((idx, 'neterr'))
                 st[i] = 'closedish'
             elif down_soon:
-                # the main-loop task has been cancelled but has not run yet: the face may still take the Interest, which is then
-                # cancelled with everything else, or it may already refuse it
+                # the main-loop task has been cancelled but has not run yet: the face may still take the Interest - which is then
+                # pending like any other until the cancellation takes effect (a packet arriving in between may complete it) -
+                # or it may already refuse it
                 cands[i].append((idx, 'neterr'))
                 cands[i].append((idx, 'canceled'))
-                st[i] = 'closedish'
+                st[i] = 'pending'
+                dl[i] = e[2] + interests[i]['lifetime'] * 1000
             else:
                 st[i] = 'pending'
                 dl[i] = e[2] + interests[i]['lifetime'] * 1000
